@@ -25,10 +25,10 @@ Print Assumptions no_will_without_lwt.
 Example c13_history :
   let run := fold_left (λ st o, let r := step [] st.1 o in (r.1, (st.2 ++ [r.2])%list)) in
   let ops := [EConnect 0%nat "w" "cw" "ta" "" 60 None 10; ESubscribe "w" 1 [("will/#", 0)] 20;
-              EConnect 1%nat "dying" "cd" "ta" "" 60 (Some (Publish "will/t" "gone" 0 false)) 30; EGossip 1%nat 0%nat;
+              EConnect 1%nat "dying" "cd" "ta" "" 60 (Some (Publish "will/t" "gone" 0 false false)) 30; EGossip 1%nat 0%nat;
               EPeerLeave 0%nat 1%nat 40;
-              EConnect 0%nat "d2" "cd2" "ta" "" 60 (Some (Publish "will/u" "bye" 0 false)) 50; EDisconnect "d2" 60;
-              EConnect 0%nat "d3" "cd3" "ta" "" 60 (Some (Publish "will/v" "lost" 0 false)) 70; EEof "d3" 80] in
+              EConnect 0%nat "d2" "cd2" "ta" "" 60 (Some (Publish "will/u" "bye" 0 false false)) 50; EDisconnect "d2" 60;
+              EConnect 0%nat "d3" "cd3" "ta" "" 60 (Some (Publish "will/v" "lost" 0 false false)) 70; EEof "d3" 80] in
   let o := (run ops (cnew 2%nat, [])).2 in
   nth 4%nat o [] = [Appended 0%nat "ta/will/t" "gone" 0 false; Out "w" (OPublish "will/t" "gone" 0 false false 0)]
   ∧ nth 6%nat o [] = [Closed "d2"]
